@@ -34,7 +34,7 @@ gen_c16p()
 	std::string s;
 	std::vector<size_t> marks; // interesting cut positions: inside size lines, around CRLFs
 	int  nchunks = *pbt::welem<int>({{1, 0}, {4, 1}, {4, 2}, {2, 3}, {1, 6}});
-	int  mutate  = *pbt::welem<int>({{9, 0}, {1, 1}, {1, 2}, {1, 3}, {1, 4}, {1, 5}, {1, 6}, {1, 7}, {1, 8}, {1, 9}});
+	int  mutate  = *pbt::welem<int>({{9, 0}, {1, 1}, {1, 2}, {1, 3}, {1, 4}, {1, 5}, {1, 6}, {1, 7}, {1, 8}, {1, 9}, {1, 10}, {1, 11}});
 	int  mutat   = nchunks > 0 ? *pbt::range<int>(0, nchunks - 1) : 0; // which chunk carries the mutation
 	size_t total = 0;
 	auto crlf = [&](bool bad) {
@@ -72,7 +72,12 @@ gen_c16p()
 			s += "x"; // one data byte too many before the terminator
 		if (m && mutate == 6)
 			s.pop_back(); // one too few
-		crlf(m && mutate == 7);
+		if (m && mutate == 10)
+			s += "\rX"; // only the second terminator byte is wrong
+		else if (m && mutate == 11)
+			s += "X\n"; // only the first terminator byte is wrong
+		else
+			crlf(m && mutate == 7);
 		total += sz;
 	}
 	// last chunk and trailers
@@ -140,8 +145,8 @@ main(int argc, char **argv)
 	sp.exec       = exec_c16p;
 	sp.child_init = [] { nng_init(NULL); };
 	sp.rule = "chunked bodies from the RFC 9112 grammar (0..6 chunks of 1..70000 bytes, upper / lower case and zero-padded sizes, extensions, trailers, optional bytes of a next "
-	          "message, optional truncation) with one of nine mutations (non-hex size, missing size, control characters, bare LF, data one byte long / short, missing terminator, "
-	          "overflowing size) and a size limit at / below / above the body size, fed to nni_http_chunks_parse in one piece and cut at generated positions (every byte boundary "
+	          "message, optional truncation) with one of eleven mutations (non-hex size, missing size, control characters, bare LF, data one byte long / short, missing terminator, "
+	          "terminator with exactly one wrong byte, overflowing size) and a size limit at / below / above the body size, fed to nni_http_chunks_parse in one piece and cut at generated positions (every byte boundary "
 	          "for short streams, otherwise biased to size lines and CRLFs). Oracle: same verdict, consumed count and body for every segmentation (metamorphic); agreement with a "
 	          "strict reference decoder (differential): well-formed => decoded exactly, truncated => needs more, malformed / over the limit => error, never delivery. "
 	          "Non-trivial = the stream was cut at least once; distinct by case hash";
